@@ -305,6 +305,11 @@ def validate(module, cfg, trace, timeout=900, heap="4g", env=None, workers=1, df
                 rejects.append((int(d["l"]), json.dumps(d)))
             except Exception:
                 rejects.append((-1, line))
+    conform = None
+    for line in r.lines:
+        if line.startswith('"CONFORM '):
+            a = line.strip('"').split()
+            conform = (int(a[1]), int(a[2]))
     infra = None
     if r.rc not in (0, 12, 13):
         infra = "tlc exit %s: %s" % (r.rc, "\n".join(r.lines[-15:]))
@@ -314,7 +319,7 @@ def validate(module, cfg, trace, timeout=900, heap="4g", env=None, workers=1, df
         # invariant/postcondition violated without a REJECT line: the trace was not consumed
         rejects.append((-1, "trace not consumed: " + " | ".join(l for l in r.lines[-12:] if l.strip())))
     res = dict(accepted=(r.ok and not rejects), rejects=rejects, infra=infra, generated=r.generated,
-               distinct=r.distinct, wall=r.wall, rc=r.rc)
+               distinct=r.distinct, wall=r.wall, rc=r.rc, conform=conform)
     tlc_cleanup(r)
     return res
 
